@@ -22,6 +22,7 @@ import (
 	"github.com/smart-core-os/sc-golang/pkg/resource"
 	"github.com/smart-core-os/sc-golang/pkg/trait/countpb"
 	"github.com/smart-core-os/sc-golang/pkg/trait/enterleavesensorpb"
+	"github.com/smart-core-os/sc-golang/pkg/trait/hailpb"
 	"github.com/smart-core-os/sc-golang/pkg/trait/publicationpb"
 	"github.com/smart-core-os/sc-golang/pkg/trait/vendingpb"
 )
@@ -46,6 +47,71 @@ func (p *P) UnmarshalText(b []byte) error {
 }
 func (p P) msg() *durationpb.Duration { return &durationpb.Duration{Seconds: p.A, Nanos: int32(p.B)} }
 
+// carrier: the message type that carries a.b (see Scenario.Carrier). A zero field is an absent field in every
+// carrier (a sub-message is nil exactly when its number is 0), so that equal pairs are proto.Equal messages.
+type carrier string
+
+func (c carrier) mk(p P) proto.Message {
+	if c == "hail" {
+		m := &traits.Hail{}
+		c.set(m, p)
+		return m
+	}
+	if c == "chg" {
+		m := &traits.PullCountsResponse_Change{}
+		c.set(m, p)
+		return m
+	}
+	return p.msg()
+}
+
+// set makes m (a message of the carrier's type) hold p, in place
+func (c carrier) set(m proto.Message, p P) {
+	switch t := m.(type) {
+	case *traits.PullCountsResponse_Change:
+		t.Count, t.ChangeTime = nil, nil
+		if p.A != 0 {
+			t.Count = &traits.Count{Added: int32(p.A)}
+		}
+		if p.B != 0 {
+			t.ChangeTime = &timestamppb.Timestamp{Seconds: p.B}
+		}
+	case *traits.Hail: // (the Id stays)
+		t.State, t.ArriveTime = traits.Hail_State(p.A), nil
+		if p.B != 0 {
+			t.ArriveTime = &timestamppb.Timestamp{Seconds: hailArrive(p.B)}
+		}
+	case *durationpb.Duration:
+		t.Seconds, t.Nanos = p.A, int32(p.B)
+	}
+}
+
+// hailArrive: the arrive_time (seconds) field b of a hail stands for: 0 = none (the hail has not arrived), 1 = ten
+// hours before the epoch of the injected clock - EXPIRED for the model's sweep, whose keep-alive is one hour and
+// whose clock shows the first minutes of that epoch -, 2.. = at or after the epoch (not expired)
+func hailArrive(b int64) int64 { return 36000*(b-2) + 1 } // (never 0 seconds: an empty sub-message merges as 'no change')
+
+func hailExpired(v P) bool { return v.B == 1 }
+
+// withID: the message names the id it is written under (hails do)
+func (c carrier) withID(m proto.Message, id string) proto.Message {
+	if h, ok := m.(*traits.Hail); ok && h != nil {
+		h.Id = id
+	}
+	return m
+}
+
+// path: the update-mask path of field "a" / "b"
+func (c carrier) path(f string) string {
+	if c == "hail" {
+		return map[string]string{"a": "state", "b": "arrive_time"}[f]
+	}
+	if c == "chg" {
+		return map[string]string{"a": "count", "b": "change_time"}[f]
+	}
+	return map[string]string{"a": "seconds", "b": "nanos"}[f]
+}
+
 // Op is one call of a writer.
 //
 //	K="u": Collection.Update(id, …)   K="v": Value.Set(…) (model id 9)   K="d": Collection.Delete(id, …)
@@ -62,7 +128,15 @@ func (p P) msg() *durationpb.Duration { return &durationpb.Duration{Seconds: p.A
 //	       is the version's body: the version is a hash of the content; frozen clock only, the publish time is
 //	       then the same in every message)
 //	K="q": publicationpb.ModelServer.DeletePublication(version of the body Expect.A, allow_missing AM) (a Delete
-//	       of model id 5 with that expected value)
+//	       of model id 5 with that version check)
+//	K="k": publicationpb.ModelServer.AcknowledgePublication(version of the body Expect.A, receipt r): F="s0.<r>",
+//	       Mask="b": the message a.b is body.receipt (0 none, 1 NO_SIGNAL, 2 ACCEPTED, 3 REJECTED); an Update of
+//	       field b whose check refuses another version (the handler's code for that is Aborted, written
+//	       "err:VersionMismatch": it is a refused precondition, not a lost race) and a version that is
+//	       already ACCEPTED / REJECTED (FailedPrecondition): two acknowledgements of one version never both succeed
+//
+// The version of a publication is a function of its body (field a) only: the version checks of p / q / k look at
+// field a (check "ve<k>": a = k or FailedPrecondition; "ak<k>": the check of k).
 //
 // and write HANDLERS of a trait server (request in, response out: what is judged is the RESPONSE the handler gives):
 //
@@ -103,7 +177,7 @@ const countID = 8 // the Value of the count device
 const pubID = 5 // the publication of the publication model
 
 func (o Op) trait() bool {
-	return o.K == "x" || o.K == "e" || o.K == "p" || o.K == "q" || o.K == "c" || o.K == "z"
+	return o.K == "x" || o.K == "e" || o.K == "p" || o.K == "q" || o.K == "c" || o.K == "z" || o.K == "k"
 }
 
 const genBase = 100 // model ids of generated ids: genBase + 10*candidate + try
@@ -126,6 +200,16 @@ type Scenario struct {
 	// Pub: the publication after the commit is a step of its own (family publish-window): threads also park at
 	// value.set.beforeSend / coll.update.beforeSend, i.e. with their value stored and their call not yet returned
 	Pub bool `json:"pub,omitempty"`
+	// Carrier: the message type the Collection and the Value hold (the write path is generic in it): "" =
+	// durationpb.Duration{seconds a, nanos b}; "chg" = traits.PullCountsResponse_Change{count{added a}, change_time
+	// {seconds b}} - a message of the API for which the library's other comparer (pkg/cmp, made for de-duplicating
+	// Pull responses) is coarser than proto.Equal: it leaves field b out; "hail" = the collection is the one of a
+	// hailpb.Model and holds traits.Hail{state a, arrive_time b (hailArrive)}: Update goes through Model.UpdateHail,
+	// Delete through Model.DeleteHail (both hand the caller's write options on), and
+	//	K="h": hailpb.Model.CreateHail(F="s<a>.<b>"): an Add with a generated id, followed - for the first caller -
+	//	       by the model's SWEEP of expired hails: List, then per expired hail a Delete(allow missing, expected
+	//	       value = the listed copy)
+	Carrier string `json:"carrier,omitempty"`
 }
 
 func (sc Scenario) clock() string {
@@ -200,15 +284,27 @@ func (o Op) encode() string {
 	case "e":
 		return fmt.Sprintf("u/%d/V/0/0/-/n/%s/-/-", enterID, o.F)
 	case "p":
-		return fmt.Sprintf("u/%d/C/0/0/%s/n/%s/-/-", pubID, optP(o.Expect), o.F)
+		return fmt.Sprintf("u/%d/C/0/0/-/%s/%s/-/-", pubID, o.versionCheck("ve"), o.F)
 	case "q":
-		return fmt.Sprintf("d/%d/%s/%s/n", pubID, b01(o.AM), optP(o.Expect))
+		return fmt.Sprintf("d/%d/%s/-/%s", pubID, b01(o.AM), o.versionCheck("ve"))
+	case "k":
+		return fmt.Sprintf("u/%d/C/0/0/-/%s/%s/b/-", pubID, o.versionCheck("ak"), o.F)
 	case "c":
 		return fmt.Sprintf("u/%d/V/0/0/-/n/%s/%s/-", countID, o.F, o.mask())
 	case "z":
 		return fmt.Sprintf("u/%d/V/0/0/-/n/s0.0/-/-", countID)
+	case "h":
+		return "h/" + o.F
 	}
 	return "?"
+}
+
+// versionCheck: the check token of a call that quotes the version of the body Expect.A ("n" when it quotes none)
+func (o Op) versionCheck(kind string) string {
+	if o.Expect == nil {
+		return "n"
+	}
+	return kind + strconv.FormatInt(o.Expect.A, 10)
 }
 
 // target is the id a call works on; a generate-id call has none before it ran (-1).
@@ -220,7 +316,7 @@ func (o Op) target() int {
 		return vendID
 	case "e":
 		return enterID
-	case "p", "q":
+	case "p", "q", "k":
 		return pubID
 	case "c", "z":
 		return countID
@@ -361,6 +457,7 @@ func idOf(name string) int {
 // the real code
 
 type world struct {
+	car  carrier
 	coll *resource.Collection
 	val  *resource.Value
 	clk  *clock
@@ -371,6 +468,7 @@ type world struct {
 	pub   *publicationpb.ModelServer
 	pubM  *publicationpb.Model
 	count *countpb.MemoryDevice
+	hail  *hailpb.Model
 	// the reset time every ResetCount of this world asks for: the one the device was created with (the message
 	// a.b leaves the reset time out, so it is kept the same: a reset is then the write of 0.0 and nothing else)
 	resetAt *timestamppb.Timestamp
@@ -389,7 +487,7 @@ type rivalRun struct {
 }
 
 func newWorld(sc Scenario, free bool) *world {
-	w := &world{clk: &clock{mode: sc.clock(), free: free}, rng: &scriptRNG{script: sc.Cands}}
+	w := &world{car: carrier(sc.Carrier), clk: &clock{mode: sc.clock(), free: free}, rng: &scriptRNG{script: sc.Cands}}
 	copts := []resource.Option{resource.WithClock(w.clk), resource.WithRNG(w.rng)}
 	vopts := []resource.Option{resource.WithClock(w.clk)}
 	switch sc.Writable {
@@ -403,17 +501,28 @@ func newWorld(sc Scenario, free bool) *world {
 	for _, id := range sc.initIDs() {
 		v := sc.Init[strconv.Itoa(id)]
 		if id == valueID {
-			vopts = append(vopts, resource.WithInitialValue(v.msg()))
+			vopts = append(vopts, resource.WithInitialValue(w.car.mk(v)))
 		} else if id == vendID || id == enterID || id == pubID || id == countID {
 			continue
 		} else {
-			copts = append(copts, resource.WithInitialRecord(idName(id), v.msg()))
+			copts = append(copts, resource.WithInitialRecord(idName(id), w.car.mk(v)))
 		}
 	}
 	if sc.Icpt {
 		copts = append(copts, resource.WithIDInterceptor(strings.ToLower))
 	}
 	w.coll = resource.NewCollection(copts...)
+	if w.car == "hail" {
+		// the records live in the hail model's collection instead (w.coll stays empty)
+		hopts := []resource.Option{hailpb.WithKeepAlive(time.Hour), resource.WithClock(w.clk), resource.WithRNG(w.rng)}
+		for _, id := range sc.initIDs() {
+			if id < valueID && id != vendID && id != enterID && id != pubID && id != countID || id >= genBase {
+				hopts = append(hopts, resource.WithInitialRecord(idName(id), w.car.withID(w.car.mk(sc.Init[strconv.Itoa(id)]), idName(id))))
+			}
+		}
+		w.coll = resource.NewCollection(resource.WithClock(w.clk))
+		w.hail = hailpb.NewModel(hopts...)
+	}
 	w.val = resource.NewValue(vopts...)
 	if sc.usesTrait("x") {
 		topts := []resource.Option{resource.WithClock(w.clk)}
@@ -428,7 +537,7 @@ func newWorld(sc Scenario, free bool) *world {
 		w.enter = enterleavesensorpb.NewModel(resource.WithClock(w.clk),
 			enterleavesensorpb.WithInitialEnterLeaveEvent(&traits.EnterLeaveEvent{EnterTotal: &a, LeaveTotal: &b}))
 	}
-	if sc.usesTrait("p") || sc.usesTrait("q") {
+	if sc.usesTrait("p") || sc.usesTrait("q") || sc.usesTrait("k") {
 		// the versions the writers will quote, minted now: not from inside a controlled thread
 		for _, p := range sc.Progs {
 			for _, o := range p {
@@ -443,6 +552,11 @@ func newWorld(sc Scenario, free bool) *world {
 			// created through the server, which mints the version (the constructor's clock instant is 0 as well)
 			if _, err := w.pub.CreatePublication(context.Background(), &traits.CreatePublicationRequest{Publication: pubMsg(v.A)}); err != nil {
 				panic("c02: CreatePublication: " + err.Error())
+			}
+			if v.B != 0 { // a start value that carries a receipt: acknowledged through the handler
+				if _, err := w.pub.AcknowledgePublication(context.Background(), &traits.AcknowledgePublicationRequest{Id: idName(pubID), Version: versionOf(v.A), Receipt: traits.Publication_Audience_Receipt(v.B)}); err != nil {
+					panic("c02: AcknowledgePublication: " + err.Error())
+				}
 			}
 		}
 	}
@@ -524,12 +638,26 @@ func msgVal(m proto.Message) (P, bool) {
 			return P{}, false
 		}
 		return P{int64(t.GetAdded()), int64(t.GetRemoved())}, true
+	case *traits.Hail:
+		if t == nil {
+			return P{}, false
+		}
+		b := int64(0)
+		if t.ArriveTime != nil {
+			b = (t.ArriveTime.Seconds-1)/36000 + 2
+		}
+		return P{int64(t.GetState()), b}, true
+	case *traits.PullCountsResponse_Change:
+		if t == nil {
+			return P{}, false
+		}
+		return P{int64(t.GetCount().GetAdded()), t.GetChangeTime().GetSeconds()}, true
 	case *traits.Publication:
 		if t == nil {
 			return P{}, false
 		}
 		n, _ := strconv.ParseInt(string(t.GetBody()), 10, 64)
-		return P{n, 0}, true
+		return P{n, int64(t.GetAudience().GetReceipt())}, true
 	}
 	w, ok := m.(*durationpb.Duration)
 	if !ok || w == nil {
@@ -553,7 +681,7 @@ func (w *world) writeOpts(o Op, genID *int) (proto.Message, []resource.WriteOpti
 	if o.Gen {
 		opts = append(opts, resource.WithGenIDIfAbsent(), resource.WithIDCallback(func(id string) { *genID = idOf(id) }))
 	}
-	viaAdd := o.K == "u" && o.ViaAdd && o.EA && o.CIA
+	viaAdd := o.K == "u" && o.ViaAdd && o.EA && o.CIA && w.car != "hail"
 	if o.EA && !viaAdd {
 		opts = append(opts, resource.WithExpectAbsent())
 	}
@@ -564,15 +692,19 @@ func (w *world) writeOpts(o Op, genID *int) (proto.Message, []resource.WriteOpti
 		opts = append(opts, resource.WithAllowMissing(true))
 	}
 	if o.Expect != nil {
-		opts = append(opts, resource.WithExpectedValue(o.Expect.msg()))
+		e := w.car.mk(*o.Expect)
+		if o.K != "v" {
+			e = w.car.withID(e, idName(o.ID))
+		}
+		opts = append(opts, resource.WithExpectedValue(e))
 	}
 	switch o.Mask {
 	case "a":
-		opts = append(opts, resource.WithUpdatePaths("seconds"))
+		opts = append(opts, resource.WithUpdatePaths(w.car.path("a")))
 	case "b":
-		opts = append(opts, resource.WithUpdatePaths("nanos"))
+		opts = append(opts, resource.WithUpdatePaths(w.car.path("b")))
 	case "ab":
-		opts = append(opts, resource.WithUpdatePaths("seconds", "nanos"))
+		opts = append(opts, resource.WithUpdatePaths(w.car.path("a"), w.car.path("b")))
 	}
 	if o.WT != nil {
 		opts = append(opts, resource.WithWriteTime(time.Unix(*o.WT, 0)))
@@ -611,7 +743,7 @@ func (w *world) writeOpts(o Op, genID *int) (proto.Message, []resource.WriteOpti
 		case 's':
 			var p P
 			_ = p.UnmarshalText([]byte(o.F[1:]))
-			msg = p.msg()
+			msg = w.car.mk(p)
 			if rivalInBefore {
 				opts = append(opts, resource.InterceptBefore(func(old, new proto.Message) { rival() }))
 			}
@@ -619,29 +751,32 @@ func (w *world) writeOpts(o Op, genID *int) (proto.Message, []resource.WriteOpti
 			// the delta idiom documented on InterceptBefore and used by the library's own models: the written
 			// message carries the delta, the interceptor adds the old quantities to it
 			k, _ := strconv.ParseInt(o.F[1:], 10, 64)
-			d := &durationpb.Duration{}
+			d := P{}
 			if o.F[0] == 'a' {
-				d.Seconds = k
+				d.A = k
 			} else {
-				d.Nanos = int32(k)
+				d.B = k
 			}
-			msg = d
+			msg = w.car.mk(d)
 			opts = append(opts, resource.InterceptBefore(func(old, new proto.Message) {
 				if rivalInBefore {
 					rival()
 				}
 				v, _ := msgVal(old)
-				change := new.(*durationpb.Duration)
-				change.Seconds += v.A
-				change.Nanos += int32(v.B)
+				change, _ := msgVal(new)
+				w.car.set(new, P{change.A + v.A, change.B + v.B})
 			}))
 		}
 	}
 	if o.After {
 		opts = append(opts, resource.InterceptAfter(func(old, new proto.Message) {
 			v, _ := msgVal(old)
-			new.(*durationpb.Duration).Nanos = int32(v.B + 1)
+			cur, _ := msgVal(new)
+			w.car.set(new, P{cur.A, v.B + 1})
 		}))
+	}
+	if msg != nil && o.K != "v" {
+		msg = w.car.withID(msg, idName(o.ID))
 	}
 	return msg, opts
 }
@@ -667,6 +802,13 @@ func (w *world) exec(o Op, genID *int) string {
 			id = ""
 		}
 		var res string
+		if w.hail != nil {
+			m, err := w.hail.UpdateHail(msg.(*traits.Hail), opts...)
+			if m == nil {
+				return canon(nil, err)
+			}
+			return canon(m, err)
+		}
 		if o.ViaAdd && o.EA && o.CIA {
 			res = canon(w.coll.Add(id, msg, opts...))
 		} else {
@@ -681,8 +823,24 @@ func (w *world) exec(o Op, genID *int) string {
 		return canon(w.val.Set(msg, opts...))
 	case "d":
 		_, opts := w.writeOpts(o, genID)
+		if w.hail != nil {
+			m, err := w.hail.DeleteHail(o.spelled(), opts...)
+			if m == nil {
+				return canon(nil, err)
+			}
+			return canon(m, err)
+		}
 		m, err := w.coll.Delete(o.spelled(), opts...)
 		return canon(m, err)
+	case "h":
+		var p P
+		_ = p.UnmarshalText([]byte(o.F[1:]))
+		m, err := w.hail.CreateHail(w.car.mk(p).(*traits.Hail))
+		if m == nil {
+			return canon(nil, err)
+		}
+		*genID = idOf(m.Id)
+		return canon(m, err) + "#" + strconv.Itoa(*genID)
 	case "x":
 		k, _ := strconv.ParseInt(o.F[1:], 10, 64)
 		m, err := w.vend.DispenseInstantly(idName(vendID), &traits.Consumable_Quantity{Amount: float32(k)})
@@ -698,6 +856,21 @@ func (w *world) exec(o Op, genID *int) string {
 			req.Version = versionOf(o.Expect.A)
 		}
 		m, err := w.pub.UpdatePublication(context.Background(), req)
+		if m == nil {
+			return canon(nil, err)
+		}
+		return canon(m, err)
+	case "k":
+		var p P
+		_ = p.UnmarshalText([]byte(o.F[1:]))
+		req := &traits.AcknowledgePublicationRequest{Id: idName(pubID), Receipt: traits.Publication_Audience_Receipt(p.B)}
+		if o.Expect != nil {
+			req.Version = versionOf(o.Expect.A)
+		}
+		m, err := w.pub.AcknowledgePublication(context.Background(), req)
+		if err != nil && status.Code(err) == codes.Aborted && strings.Contains(status.Convert(err).Message(), "version mismatch") {
+			return "err:VersionMismatch"
+		}
 		if m == nil {
 			return canon(nil, err)
 		}
@@ -786,6 +959,23 @@ func (w *world) contents() (map[int]P, map[int]int64) {
 		}
 		cancel()
 	}
+	if w.hail != nil {
+		if n := len(w.hail.ListHails()); n > 0 {
+			ctx, cancel := context.WithCancel(context.Background())
+			ch := w.hail.PullHails(ctx)
+			for i := 0; i < n; i++ {
+				select {
+				case ev := <-ch:
+					v, _ := msgVal(ev.NewValue)
+					vals[idOf(ev.NewValue.GetId())] = v
+					stamps[idOf(ev.NewValue.GetId())] = ev.ChangeTime.Unix()
+				case <-time.After(10 * time.Second):
+					panic("c02: no seed event from PullHails")
+				}
+			}
+			cancel()
+		}
+	}
 	if w.vend != nil {
 		if n := len(w.vend.ListInventory()); n > 0 {
 			ctx, cancel := context.WithCancel(context.Background())
@@ -858,6 +1048,13 @@ func (w *world) snapshot() string {
 	}
 	sb.WriteString("| ")
 	show(w.val.Get())
+	if w.hail != nil {
+		sb.WriteString("| ")
+		for _, m := range w.hail.ListHails() {
+			sb.WriteString(m.GetId() + "=")
+			show(m)
+		}
+	}
 	if w.vend != nil {
 		sb.WriteString("| ")
 		for _, m := range w.vend.ListInventory() {
@@ -881,6 +1078,15 @@ func (w *world) snapshot() string {
 		show(m)
 	}
 	return sb.String()
+}
+
+// hailMap: the hails the model holds right now
+func (w *world) hailMap() map[int]P {
+	out := map[int]P{}
+	for _, m := range w.hail.ListHails() {
+		out[idOf(m.GetId())], _ = msgVal(m)
+	}
+	return out
 }
 
 // snapshotBounded: the snapshot, or false when the reads do not return within two seconds (a lock is being held
@@ -975,7 +1181,7 @@ func specApply(st map[int]P, o Op, genID int) string {
 		kind = "u"
 	case "e": // CreateEnterLeaveEvent: a Set of the model's Value
 		kind = "v"
-	case "p": // UpdatePublication with a version: an Update of the record, which must exist, expecting the version's body
+	case "p", "k": // UpdatePublication / AcknowledgePublication with a version: an Update of the record, which must exist
 		kind = "u"
 	case "q":
 		kind = "d"
@@ -999,7 +1205,18 @@ func specApply(st map[int]P, o Op, genID int) string {
 				old, oldPresent = P{}, true // a fresh empty message
 			}
 		}
-		if o.Expect != nil && !(oldPresent && old == *o.Expect) {
+		if o.K == "k" {
+			if o.Expect == nil || old.A != o.Expect.A {
+				return "err:VersionMismatch"
+			}
+			if old.B == 2 || old.B == 3 {
+				return "err:FailedPrecondition"
+			}
+		} else if o.K == "p" {
+			if o.Expect != nil && old.A != o.Expect.A {
+				return "err:FailedPrecondition"
+			}
+		} else if o.Expect != nil && !(oldPresent && old == *o.Expect) {
 			return "err:FailedPrecondition"
 		}
 		if !checkOK(o.Check, old, oldPresent) {
@@ -1021,7 +1238,11 @@ func specApply(st map[int]P, o Op, genID int) string {
 		if !checkOK(o.Check, cur, true) {
 			return "err:OutOfRange"
 		}
-		if o.Expect != nil && cur != *o.Expect {
+		if o.K == "q" {
+			if o.Expect != nil && cur.A != o.Expect.A {
+				return "err:FailedPrecondition"
+			}
+		} else if o.Expect != nil && cur != *o.Expect {
 			return "err:FailedPrecondition"
 		}
 		delete(st, id)
